@@ -107,6 +107,12 @@ def history(draw: Any, max_len: int = 120, min_len: int = 10) -> dict:
         elif kind == "field":
             h[i] = draw(field_mutation(h[i]))
         muts.append(kind)
+    if draw(st.integers(0, 3)) == 0 and h:  # 'many-field': a good share of the packets carry an extreme field value
+        share = draw(st.sampled_from((0.1, 0.3, 0.6)))
+        for i in range(len(h)):
+            if draw(st.floats(0, 1)) < share:
+                h[i] = draw(field_mutation(h[i]))
+        muts.append("many-field")
     if len(h) < 3:  # deletions must not leave (nearly) nothing
         h = h + frames[start:start + 3]
     return {"system": name, "frames": h, "mutations": muts}
